@@ -508,6 +508,36 @@ Definition instance_ok (t : ftable) (cls : string) (facts : list (string * bool)
   end.
 
 (* ---------------------------------------------------------------------------------------------- *)
+(* Part C: equality of the static part of an operator = the cache key of a jit that takes the operator
+   as ARGUMENT (the treedef holds the values of the static fields and is compared with ==).
+
+   ctable: per class, per dataclass field, the `compare` flag of the field declaration.  Regenerated
+   for every operator class (gen_field_compare) and for every dataclass stored in a static field
+   (gen_static_records: ConfigState). *)
+
+Definition ctable := list (string * list (string * bool)).
+
+Definition all_compared (t : ctable) : bool :=
+  forallb (fun c : string * list (string * bool) => forallb (fun f : string * bool => snd f) (snd c)) t.
+
+(* the __eq__ that @dataclass generates: the fields declared compare=True, in order, with the
+   equality `veq` of the field values; a field missing on either side is a mismatch *)
+Definition rec_eq {V : Type} (veq : V -> V -> bool) (flags : list (string * bool)) (a b : list (string * V)) : bool :=
+  forallb (fun f : string * bool => if snd f
+                    then match assoc (fst f) a, assoc (fst f) b with
+                         | Some x, Some y => veq x y
+                         | _, _ => false
+                         end
+                    else true) flags.
+
+(* every static field of kind KConfig has its record class in the regenerated record table *)
+Definition has_config_field (t : ftable) : bool :=
+  existsb (fun c : string * list (string * (bool * fkind)) =>
+    existsb (fun f : string * (bool * fkind) => fst (snd f) && match snd (snd f) with KConfig => true | _ => false end) (snd c)) t.
+Definition config_record_present (t : ftable) (r : ctable) : bool :=
+  implb (has_config_field t) (mem "ConfigState" (map fst r)).
+
+(* ---------------------------------------------------------------------------------------------- *)
 (* The registered classes as they are in the tree the proofs were written against (pinned tree +
    fixes/C18-landscape-unflatten.diff): a copy of FuraxGen.PytreeReg.gen_table.  Lemmas/PytreeRegL.v
    proves roundtrip_holds pinned_table for all constructor arguments; Props/C18.v checks on every run
